@@ -102,6 +102,33 @@ def run_one(cmd, out, wall_limit):
     return rc, log, res, time.time() - t0
 
 
+def cross_check(smt_dir, k):
+    """second opinion on a sample of the discharged obligations: cvc5 must not find a model where z3 said unsat"""
+    files = sorted(f for f in os.listdir(smt_dir) if f.endswith("_unsat.smt2"))
+    if not files:
+        return dict(checked=0, agreed=0, undecided=0, disagreed=[])
+    step = max(1, len(files) // k)
+    sample = files[::step][:k]
+    out = dict(checked=0, agreed=0, undecided=0, disagreed=[])
+    for f in sample:
+        path = os.path.join(smt_dir, f)
+        try:
+            r = subprocess.run(["cvc5", "--lang=smt2", "--tlimit=20000", path], stdout=subprocess.PIPE, stderr=subprocess.STDOUT,
+                               text=True, timeout=30)
+            ans = [l.strip() for l in r.stdout.splitlines() if l.strip() in ("sat", "unsat", "unknown")]
+            first = ans[0] if ans and "(error" not in r.stdout else "unknown"
+        except subprocess.TimeoutExpired:
+            first = "unknown"
+        out["checked"] += 1
+        if first == "unsat":
+            out["agreed"] += 1
+        elif first == "sat":
+            out["disagreed"].append(path)
+        else:
+            out["undecided"] += 1
+    return out
+
+
 def merge_parts(parts):
     """sums the results of the parts of a split job"""
     m = None
@@ -142,7 +169,14 @@ def run_job_s(job, exe, tier, idx, pid, pool=None):
     t0 = time.time()
     if split <= 1:
         out = os.path.join(OUT, pid, "job%03d.json" % idx)
-        rc, log, res, _ = run_one(base + ["--out", out], out, wall_limit)
+        smt_dir = os.path.join(OUT, pid, "smt2_%03d" % idx)
+        if os.path.isdir(smt_dir):
+            for f in os.listdir(smt_dir):
+                os.remove(os.path.join(smt_dir, f))
+        os.makedirs(smt_dir, exist_ok=True)
+        rc, log, res, _ = run_one(base + ["--out", out, "--smt2", smt_dir], out, wall_limit)
+        if res is not None:
+            res["cross"] = cross_check(smt_dir, 1 if tier == "quick" else 6)
     else:
         cmds = []
         for part in range(split):
@@ -303,6 +337,12 @@ def main():
         for s in res["samples"][:1]:
             samples.append({"job": label, "route": "S", "sample": s})
         tot["replays"] += res.get("validated_paths", 0)
+        cr = res.get("cross")
+        if cr:
+            for kk in ("checked", "agreed", "undecided"):
+                tot["cross_" + kk] = tot.get("cross_" + kk, 0) + cr[kk]
+            for pth in cr["disagreed"]:
+                inconclusive.append("%s: cvc5 finds a model for an obligation z3 discharged (%s)" % (label, pth))
         for dis in res.get("validation_disagreements", []):
             if relevant(pid, dis.split(" ")[0]):
                 inconclusive.append("%s: symbolic model and concrete run of the real code disagree on %s" % (label, dis))
@@ -376,6 +416,8 @@ def main():
         "solver_sat": tot["q_sat"],
         "solver_unknown": tot["unknown"],
         "solver_time_s": round(tot["solver_s"], 3),
+        "second_solver_cvc5": {"obligations_rechecked": tot.get("cross_checked", 0), "agreed_unsat": tot.get("cross_agreed", 0),
+                               "undecided_within_20s": tot.get("cross_undecided", 0)},
         "build_time_s": round(build_s, 3),
         "jobs": [{"label": (r["job"].get("label") or r["job"]["harness"] + ":" + cfg_str(r["job"].get("cfg", {}))),
                   "route": r["job"].get("route", "S"),
